@@ -353,6 +353,16 @@ func (x *X) loopCore(f *Frame, st *State, L *loopDesc) *State {
 		}
 		head.heaps[h] = c.define("lh", nh)
 	}
+	// Go's type invariants of the havocked variables hold at every loop head: slice headers are
+	// well formed and every reference they hold was allocated before now
+	for _, v := range mvars {
+		if _, boxed := head.boxed[v]; boxed {
+			continue
+		}
+		if val, ok := head.vars[v]; ok && val.T != nil {
+			x.wfValue(head, val)
+		}
+	}
 	if L.pre != nil {
 		L.pre(head)
 	}
@@ -750,7 +760,7 @@ func (x *X) rangeMap(f *Frame, st *State, n *ast.RangeStmt, label string, mt *ty
 	i2 := BoundVar("sj", SBV(64))
 	c.assume(st.pc, Quant("forall", []*Term{i1}, Implies(bvcmp("bvult", i1, cnt), Select(dom0, Select(seq, i1))), []*Term{Select(seq, i1)}))
 	c.assume(st.pc, Quant("forall", []*Term{i1, i2}, Implies(And(bvcmp("bvult", i1, cnt), bvcmp("bvult", i2, cnt), Not(Eq(i1, i2))),
-		Not(Eq(Select(seq, i1), Select(seq, i2)))), []*Term{Select(seq, i1), Select(seq, i2)}))
+		Not(Eq(Select(seq, i1), Select(seq, i2)))), []*Term{mk("$multi", SBool, Select(seq, i1), Select(seq, i2))}))
 	// covering: every key of dom0 has an index (skolem function)
 	idxOf := fmt.Sprintf("seqidx%d!%d", ord, c.symN)
 	kb := BoundVar("sk", ksort)
